@@ -23,7 +23,7 @@ INFO = {
                    "under the same name; key2idx is the canonical position; the Cayley rows/columns are left/right "
                    "factors; the draggable-point predicate and its index twin agree on every (r, d) cell; drag write-back "
                    "is in place, key-addressed and followed by re-evaluation. NOT decided: ganja.js itself.",
-    "decided": ["C20.keys-or-canonical", "C20.recursion", "C20.fields", "C20.key2idx", "C20.cayley",
+    "decided": ["C20.keys-or-canonical", "C20.byte-payload", "C20.recursion", "C20.fields", "C20.key2idx", "C20.cayley",
                 "C20.draggable-agree", "C20.writeback"],
     "not_decided": ["what ganja.js renders from a decoded element"],
     "assumptions": ["graph.js decodes a payload by key through key2idx when 'keys' is present and positionally otherwise "
@@ -122,6 +122,111 @@ def _show(p):
 def keys_or_canonical(ctx):
     """A payload without keys is produced only for the canonical layout (decode(encode(mv)) == mv for every layout)."""
     check_keys_or_canonical(ctx, ctx.repo)
+
+
+# --------------------------------------------------------------------------- coefficient arrays sent as raw bytes
+FLOAT64_SPELLINGS = {"float64", "f8", "<f8", "d", "double", "float", "float_"}
+
+
+def _dtype_name(t):
+    from ..absint import ClassRef, PyFunc
+    if isinstance(t, str):
+        return "float64" if t in FLOAT64_SPELLINGS else t
+    if isinstance(t, Obj) and t.kind == "dtype":
+        return t.attrs["name"]
+    if isinstance(t, (ClassRef, PyFunc)) and getattr(t, "name", None) == "float":
+        return "float64"
+    if isinstance(t, (ClassRef, PyFunc)) and getattr(t, "name", None) == "int":
+        return "int64"
+    return None
+
+
+def nd_standin(names, dtype):
+    """A 1-D ndarray of coefficients with an element type: what tobytes() writes depends on it."""
+    o = Obj("ndarray", {"fmt": f"ARR<{dtype}>{list(names)}", "dtype": Obj("dtype", {"name": dtype, "fmt": dtype}),
+                        "shape": (len(names),), "ndim": 1, "names": tuple(names)})
+
+    def astype(t, *a, **k):
+        n = _dtype_name(t)
+        if n is None:
+            raise NoValue(f"astype({t!r})")
+        return nd_standin(names, n)
+    o.methods.update({
+        "tobytes": lambda *a, **k: Obj("bytes", {"dtype": dtype, "names": tuple(names), "fmt": f"bytes<{dtype}>{list(names)}"}),
+        "astype": astype, "copy": lambda *a, **k: nd_standin(names, dtype), "__len__": lambda: len(names),
+        "tolist": lambda: [Val(n) for n in names], "__iter__": lambda: [Val(n) for n in names],
+        "view": lambda *a, **k: (_ for _ in ()).throw(NoValue("ndarray.view"))})
+    return o
+
+
+def numpy_for_payload():
+    from ..absint import PyFunc, ClassRef
+
+    def asarray(x, dtype=None, *a, **k):
+        if not (isinstance(x, Obj) and x.kind == "ndarray"):
+            raise NoValue("np.asarray of a non-array stand-in")
+        n = _dtype_name(dtype) if dtype is not None else x.attrs["dtype"].attrs["name"]
+        if n is None:
+            raise NoValue(f"dtype {dtype!r}")
+        return nd_standin(x.attrs["names"], n)
+    table = {"ndarray": ClassRef("ndarray"), "asarray": PyFunc(asarray, "np.asarray", True), "array": PyFunc(asarray, "np.array", True),
+             "ascontiguousarray": PyFunc(asarray, "np.ascontiguousarray", True), "asanyarray": PyFunc(asarray, "np.asanyarray", True),
+             "require": PyFunc(asarray, "np.require", True)}
+    for n in ("float64", "float32", "int64", "int32", "double", "float_", "complex128"):
+        table[n] = Obj("dtype", {"name": "float64" if n in ("double", "float_") else n, "fmt": n})
+    return Obj("module:numpy", table)
+
+
+@rule("C20.byte-payload", props=["C20"], min_instances=3, mutants=[
+    ("the coefficient array is sent in whatever element type it has", ("graph", "np.asarray(o._values, dtype=np.float64).tobytes()", "o._values.tobytes()")),
+    ("coefficient arrays are sent as single precision", ("graph", "np.asarray(o._values, dtype=np.float64).tobytes()", "np.asarray(o._values, dtype=np.float32).tobytes()")),
+])
+def byte_payload(ctx):
+    """A multivector whose coefficients live in ONE ndarray is sent as the raw bytes of that array, and graph.js reads
+    such a payload as `new Float64Array(buffer)`: the bytes must be those of a float64 array holding the coefficients in
+    storage order, whatever element type the user's array has (int64 bytes read as doubles are denormals; float32 bytes
+    have the wrong length)."""
+    repo = ctx.repo
+    fn = ctx.func(ENC)
+    js = repo.extra.get("graph.js") or ""
+    reads = re.search(r"instanceof\s+DataView\s*\?\s*new\s+(\w+)\(", js)
+    if not reads:
+        raise Unknown("graph.js#byte-payload", "the front end's treatment of a binary payload was not recognised")
+    elem = {"Float64Array": "float64", "Float32Array": "float32"}.get(reads.group(1))
+    if elem is None:
+        raise Unknown("graph.js#byte-payload", f"the front end reads binary payloads as {reads.group(1)}")
+    alg = rep_algebra(3)
+    for dtype in ("float64", "int64", "float32"):
+        c = f"{ENC}#ndarray-backed:{dtype}"
+        names = ("A", "B", "C")
+        mv = mv_obj(alg, (1, 2, 4), nd_standin(names, dtype))
+        it = make_interp(repo)
+        it.standins["numpy"] = numpy_for_payload()
+        try:
+            enc = it.run(ENC, [[mv]], {"root": True})
+            out = make_interp(repo).run(WALK, [enc[1]]) if enc[0] == "return" else enc
+        except NoValue as exc:
+            raise Unknown(c, str(exc), fn)
+        if out[0] != "return" or not isinstance(out[1], list) or len(out[1]) != 1 or not isinstance(out[1][0], dict):
+            raise Unknown(c, f"unrecognised payload {out!r}", fn)
+        payload = out[1][0]
+        vals = payload.get("mv")
+        if isinstance(vals, (list, tuple)):
+            got = [val_repr(v) if isinstance(v, Obj) else v for v in vals]
+            if got == list(names) and tuple(payload.get("keys", ())) == (1, 2, 4):
+                ctx.ok(c, fn, sent="list")
+            else:
+                ctx.violation(c, f"coefficients {names} of an ndarray-backed multivector are sent as {got} with keys {payload.get('keys')}", fn)
+            continue
+        if not (isinstance(vals, Obj) and vals.kind == "bytes"):
+            raise Unknown(c, f"payload value {vals!r}", fn)
+        if vals.attrs["dtype"] != elem:
+            ctx.violation(c, f"the coefficient array (element type {dtype}) is sent as raw {vals.attrs['dtype']} bytes, but graph.js reads a binary "
+                             f"payload as {reads.group(1)}: the front end sees other numbers than the multivector stores", fn)
+        elif vals.attrs["names"] != names or tuple(payload.get("keys", ())) != (1, 2, 4):
+            ctx.violation(c, f"bytes of {vals.attrs['names']} with keys {payload.get('keys')} are sent for coefficients {names} on keys (1, 2, 4)", fn)
+        else:
+            ctx.ok(c, fn, sent=f"{elem} bytes")
 
 
 # --------------------------------------------------------------------------- recursion
